@@ -218,7 +218,7 @@ impl RawAutomaton {
             transitions: Vec::from_iter([(0..alphabet_size)
                 .map(|b| ((b as u8).into(), 0))
                 .collect::<Vec<_>>()]),
-            markers: FxHashSet::default(),
+            markers: FxHashSet::from_iter((alphabet_size > 0).then_some(0)),
         }
     }
 
